@@ -1,4 +1,5 @@
 """C06 estimates and confidence bounds (DESIGN.md section 5 C06): ordering clauses only."""
+import validators
 import bounds_rules as B
 import hll_rules as H
 import cpc_rules
@@ -15,6 +16,7 @@ def run(facts, tier):
         ("cpc union folds", cpc_rules.union_rules, 3, "every row of the union's bit matrix survives a reduction of k: reduce_k folds all old rows into a fresh zeroed matrix through the row mask (an estimate computed from a matrix that lost rows is far outside its bounds)"),
         ("cpc window invariant", cpc_rules.window_invariants, 1, "no coupon is dropped by a first-interesting-column beyond the window (estimates are functions of the coupon count)"),
         ("hll merge loops", H.merge_loops, 6, "an HLL union folds every register of the source (loop extent from the source's size, no conditional skip): the union estimate is not low by a dropped part of a larger source"),
+        ("argument checkers", lambda fa: validators.checker_obligations(fa, ["hll", "cpc", "theta", "common"]), 10, "the argument checkers behind the bound queries (number of standard deviations 1..3, lg_k ranges, theta ranges) reject exactly the reviewed ranges (spec/checkers.json)"),
         ("union refresh", H.union_refresh, 6, "bounds of an HLL union are computed on refreshed state"),
     ):
         o = f(facts)
